@@ -80,7 +80,7 @@ func (c15) Generate(r *simkit.Rand, tier string) any {
 	c.MaxSizeB = simkit.Pick(r, 0, 0, 50000)
 	c.NoSpawnB = r.Chance(0.2)
 	c.ExposeA = r.Bool()
-	c.Adversary = simkit.Pick(r, "", "silence", "garbage", "truncated", "hugelen", "replay-hello", "replay-join", "replay-join", "forge", "forge", "forge-empty", "forge-empty", "forge-long")
+	c.Adversary = simkit.Pick(r, "", "silence", "garbage", "truncated", "hugelen", "replay-hello", "replay-join", "replay-join", "forge", "forge", "forge-empty", "forge-empty", "forge-long", "trickle", "trickle")
 	c.TLS = r.Chance(0.3)
 	if c.Adversary == "replay-join" {
 		c.Pool = 2
@@ -395,6 +395,34 @@ func (c15) Run(e *simkit.Env, cc any) {
 			}
 		}
 		switch c.Adversary {
+		case "trickle":
+			// a client that sends the beginning of a hello one byte at a time and keeps the socket
+			// open: the acceptor must not be occupied with it for good - three seconds later a node
+			// with the right cookie connects (judged below) while the trickle goes on
+			if len(hello) > 40 {
+				tconn, err := dialB()
+				if err == nil {
+					stopTrickle := make(chan struct{})
+					e.OnCleanup(func() { close(stopTrickle) })
+					go func() {
+						for i := 0; i < 40; i++ {
+							select {
+							case <-stopTrickle:
+								tconn.Close()
+								return
+							default:
+							}
+							if _, werr := tconn.Write(hello[i : i+1]); werr != nil {
+								return
+							}
+							time.Sleep(900 * time.Millisecond)
+							e.Gate("adversary")
+						}
+						tconn.Close()
+					}()
+					e.Sleep(3 * time.Second)
+				}
+			}
 		case "silence":
 			send(nil, 1500*time.Millisecond)
 		case "garbage":
